@@ -36,7 +36,10 @@ RULE = ('a case = (space, elements x,y,z, scalar a) evaluated for inner/norm/dis
         'computed by the harness from the node coordinates, i.e. they bypass mkAxis by design.')
 TRUSTED = ['NumPy dot/vdot/tensordot/linalg.norm/abs/power/sum/max and BLAS nrm2 modelled as the '
            'exact sums / maxima they specify',
-           'custom inner/norm/dist callables are user code: only delegation is tested']
+           'custom inner/norm/dist callables are user code: the delegation rules of Custom* and '
+           'their composition with the boundary scaling of DiscretizedSpace are modelled '
+           '(cInner/cNorm/cDist/cd*, stream custom/*) for three executable callable families; '
+           'a custom-weighted space as COMPONENT of a standard product space is not modelled']
 ASSUMPTIONS = ['floating-point rounding is outside the model: inner products are compared exactly '
                'on dyadic data with dyadic weights, everything else within 1e-9*scale + 1e-12',
                'np.isclose(frac, 1.0) (skip of the boundary scaling) is idealised in the theorems '
